@@ -4,6 +4,7 @@ import (
 	"fmt"
 	"go/ast"
 	"go/types"
+	"verifcheck/internal/core"
 
 	"verifcheck/internal/flow"
 )
@@ -164,7 +165,7 @@ func ruleStaleGuardedRead(ctx *Ctx, rule string, scope func(*flow.Unit) bool) {
 }
 
 func fieldOfType(pkg *types.Package, typ, field string) *types.Var {
-	obj := pkg.Scope().Lookup(typ)
+	obj := core.LookupType(pkg.Scope(), typ)
 	if obj == nil {
 		return nil
 	}
@@ -173,7 +174,7 @@ func fieldOfType(pkg *types.Package, typ, field string) *types.Var {
 		return nil
 	}
 	for i := 0; i < st.NumFields(); i++ {
-		if st.Field(i).Name() == field {
+		if core.FieldName(st.Field(i)) == field {
 			return st.Field(i)
 		}
 	}
